@@ -7,6 +7,8 @@ poll script (update / no-change / error / unintelligible) and registration scrip
 loop (RepeatedTimer._target) with ticks as environment choices.
 """
 import itertools
+import sys
+import threading
 
 from .. import rig, sched as S, shims
 
@@ -22,7 +24,7 @@ ASSUMPTIONS = ['the service answers NO_CHANGE iff the reported hash equals its c
                'an unintelligible poll is a response object the client cannot read (the stub returns garbage); a single uninterpretable tracepoint is C11',
                'thread switches at source-line granularity in the listed modules and at every shim operation']
 
-POLL_ACTS = ['same', 'adv', 'fail', 'garbage', 'unconvertible']
+POLL_ACTS = ['same', 'adv', 'fail', 'garbage', 'unconvertible', 'unknown-type']
 REG_SCRIPTS = [[], ['reg'], ['reg', 'unreg'], ['reg', 'reg']]
 
 
@@ -54,6 +56,8 @@ def cases(tier, seed):
             add(['first', p2, p3], ['reg'], 1, 16)
     for script in itertools.product(('ok', 'exc'), repeat=3):
         out.append({'k': 'timer', 'script': list(script)})
+    for how in ('one-after-the-other', 'side-by-side'):
+        out.append({'k': 'two-agents', 'how': how})
     return out
 
 
@@ -104,6 +108,9 @@ def make_factory(desc):
             sched.event('poll', i, act, req.current_hash)
             if act == 'fail':
                 raise ServiceDown('unavailable')
+            if act == 'unknown-type':
+                # a response type this client does not know (the enum is open: a newer service): unintelligible, nothing of it may be adopted
+                return PollResponse(ts_nanos=i + 1, current_hash='h-from-the-future', response_type=7)
             if act == 'garbage':
                 return object()
             if act == 'unconvertible':
@@ -176,6 +183,8 @@ def installed_ids(handler):
 def run_case(ctx, desc):
     if desc['k'] == 'timer':
         return timer_case(ctx, desc)
+    if desc['k'] == 'two-agents':
+        return two_agents_case(ctx, desc)
     import deep.task
     import deep.api.attributes as ATT
     import deep.config.tracepoint_config as TCm
@@ -204,7 +213,7 @@ def run_case(ctx, desc):
             want.add('svc-%d' % st['last_good'])
         hash_now = st['tps'].current_hash
         overl = max((len(s) for s in [st['th']._pending]), default=0)
-        if sched.preemptions() or any(a in ('fail', 'garbage', 'unconvertible') for a in polls):
+        if sched.preemptions() or any(a in ('fail', 'garbage', 'unconvertible', 'unknown-type') for a in polls):
             ctx.nt(tuple(choices) + tuple(polls) + tuple(desc['regs']))
         ctx.outcome((tuple(sorted(got)), hash_now))
         if len(st['seen_hashes']) != len(polls):
@@ -259,6 +268,90 @@ def run_case(ctx, desc):
             S.explore(make2, desc['bound'], ctx, on_exec, max_execs=300000, shard=desc.get('shard'), name=str(desc))
     finally:
         TCm.uuid = saved_uuid
+
+
+def two_agents_case(ctx, desc):
+    """Two agents, one after the other (or side by side), in one process, each configured the way deep.start() does it -
+    ConfigService(custom) - against a service that answers UPDATE(h1,[svc-1]) to an unknown hash and NO_CHANGE to h1. Each agent
+    must report '' first, and end up acting on the service's configuration plus its own registrations only."""
+    import time
+    import deep.grpc.grpc_service as GS
+    import deep.api.plugin as PL
+    from deep.api.deep import Deep
+    from deep.config import ConfigService
+    from deepproto.proto.poll.v1.poll_pb2 import PollResponse, ResponseType
+    from deepproto.proto.tracepoint.v1.tracepoint_pb2 import TracePointConfig as PB
+    seen = {'a': [], 'b': []}
+
+    def handler(tag):
+        def poll(req, md):
+            seen[tag].append(req.current_hash)
+            if req.current_hash == 'h1':
+                return PollResponse(ts_nanos=1, current_hash='h1', response_type=ResponseType.NO_CHANGE)
+            return PollResponse(ts_nanos=1, current_hash='h1', response_type=ResponseType.UPDATE,
+                                response=[PB(ID='svc-1', path='f.py', line_number=11, args={})])
+        return poll
+    saved = (GS.grpc, PL.DEEP_PLUGINS, sys.gettrace(), threading.gettrace())
+    PL.DEEP_PLUGINS = []
+    rig.reset_agent_globals()
+    ctx.case()
+    ctx.nt(('two-agents', desc['how']))
+    agents = []
+
+    def start(tag, register=None):
+        GS.grpc = rig.FakeGrpcModule(rig.FakeChannel(poll_handler=handler(tag)))
+        d = Deep(ConfigService({'SERVICE_URL': 'fake:1', 'POLL_TIMER': 3600, 'NO_TRACE': True, 'APP_ROOT': '/x'}))
+        d.start()
+        agents.append(d)
+        if register:
+            d.register_tracepoint('own.py', 5, {})
+        return d
+
+    def settled(d):
+        t0 = time.time()
+        while time.time() - t0 < 10:
+            ids = installed_ids(d.trigger_handler)
+            if 'svc-1' in ids:
+                break
+            time.sleep(0.005)
+        try:
+            d.task_handler.flush() if False else None
+        except BaseException:
+            pass
+        return installed_ids(d.trigger_handler)
+    try:
+        a = start('a', register=True)
+        ids_a = settled(a)
+        if desc['how'] == 'one-after-the-other':
+            a.shutdown()
+        b = start('b')
+        ids_b = settled(b)
+        own_a = sorted(i for i in ids_a if i != 'svc-1')
+        leaked = sorted(i for i in ids_b if i != 'svc-1')
+        ctx.outcome((desc['how'], tuple(sorted(ids_b))))
+        if not seen['b'] or seen['b'][0] != '':
+            ctx.violation(f'C12/second-agent/reports-a-hash-it-never-installed/{desc["how"]}', f'the second agent in the process ({desc["how"]}) reported {seen["b"][:2]} in its first '
+                          f'poll - the hash the first agent had received; the service answers NO_CHANGE and it acts on {sorted(ids_b)} for good', desc)
+        elif 'svc-1' not in ids_b:
+            ctx.violation(f'C12/second-agent/latest-config-not-installed/{desc["how"]}', f'second agent acts on {sorted(ids_b)}', desc)
+        elif leaked:
+            ctx.violation(f'C12/second-agent/inherits-registrations/{desc["how"]}', f'the second agent acts on {leaked}, registered in code with the first agent ({own_a})', desc)
+    except BaseException as e:
+        ctx.violation(f'C12/second-agent/raised/{type(e).__name__}', f'{desc}: {e!r}', desc)
+    finally:
+        for d in agents:
+            try:
+                if d.started:
+                    d.shutdown()
+            except BaseException:
+                pass
+            try:
+                d.task_handler._pool.shutdown(wait=False)
+            except BaseException:
+                pass
+        GS.grpc, PL.DEEP_PLUGINS = saved[0], saved[1]
+        sys.settrace(saved[2])
+        threading.settrace(saved[3])
 
 
 def timer_case(ctx, desc):
